@@ -1,7 +1,8 @@
 (* Entry point of the extracted model for property C11.
    cases: (1 bytes)            parsePacket on one packet-sized buffer
           (2 packet target)    writePacket
-          (3 bytes)            parse, then write the result with target 188 *)
+          (3 bytes)            parse, then write the result with target 188
+          (5 bytes n)          the same, for packets with n reserved bytes in the adaptation extension (finding K1) *)
 From Coq Require Import ZArith List.
 Require Import Base.Tok Base.Iter Base.Wr Gen.Types Model.Packet Extract.RunBase.
 Import ListNotations.
@@ -11,7 +12,7 @@ Definition run_C11 (t : tok) : tok :=
   match tI (tnth 0 t) with
   | 1 => tok_of_res tok_of_Packet (parse_packet_bytes (tB (tnth 1 t)))
   | 2 => tok_of_res TB (write_packet (Packet_of_tok (tnth 1 t)) (tI (tnth 2 t)))
-  | 3 => match parse_packet_bytes (tB (tnth 1 t)) with
+  | 3 | 5 => match parse_packet_bytes (tB (tnth 1 t)) with
          | Ok p => TL [TI 0; tok_of_Packet p; tok_of_res TB (write_packet p 188)]
          | Err c => TL [TI 1; TI c]
          | Panic => TL [TI 2]
